@@ -83,6 +83,10 @@ type Mutator struct {
 	// NoContracts drops code/storage/suicide/create-account operations (C08 is about validators
 	// and delegator accounts; contract storage is C09/C10 matter).
 	NoContracts bool
+	// Hot, HotSlots, StorageWeight: contract-focus mode (see pickContractish / case 5 of Gen).
+	Hot           []common.Address
+	HotSlots      int
+	StorageWeight int
 	// BigCodes makes SetCode choose among large (24 KiB) distinct code blobs too, so that a
 	// TrieDB().Commit spans several disk batches (C10 crash points).
 	BigCodes bool
@@ -115,6 +119,16 @@ func pickAddr(c *kit.Chooser) common.Address {
 // they are never self-destructed or re-created, so those operations are not applied to them.
 func pickContractish(c *kit.Chooser) common.Address {
 	return accounts[c.Intn("addr", len(accounts))]
+}
+
+// pickContractish as a method honours the hot set: in contract-focus runs two thirds of the
+// contract-side operations go to a few hot accounts so that multi-step histories on ONE slot
+// (write in tx1, write back in tx2, snapshot, write, revert) are reached often.
+func (m *Mutator) pickContractish(c *kit.Chooser) common.Address {
+	if len(m.Hot) > 0 && c.Chance("hot", 2, 3) {
+		return m.Hot[c.Intn("hot-addr", len(m.Hot))]
+	}
+	return pickContractish(c)
 }
 
 // existingValidators returns the live validators in index order.
@@ -183,6 +197,9 @@ func (m *Mutator) Gen(st *state.StateDB) *Op {
 	if m.AllowStakingRecords {
 		weights[17] = 3
 	}
+	if m.StorageWeight > 1 {
+		weights[5] *= m.StorageWeight
+	}
 	if m.NoContracts {
 		weights[4], weights[5], weights[6], weights[7] = 0, 0, 0, 0
 	}
@@ -217,7 +234,7 @@ func (m *Mutator) Gen(st *state.StateDB) *Op {
 			}}
 	case 3:
 		// nonces only ever advance by one (state_transition.go, evm.go:336)
-		a := pickContractish(c)
+		a := m.pickContractish(c)
 		return &Op{Name: "setnonce", Desc: fmt.Sprintf("SetNonce %s nonce+1", nm(a)), Foot: []string{acctKey(a)},
 			Apply: func(st *state.StateDB) string {
 				n := st.GetNonce(a) + 1
@@ -226,7 +243,7 @@ func (m *Mutator) Gen(st *state.StateDB) *Op {
 			}}
 	case 4:
 		// code is set once, on an account under construction (evm.go:371-380)
-		a := pickContractish(c)
+		a := m.pickContractish(c)
 		if st.GetNonce(a) == 0 || st.GetCodeSize(a) != 0 {
 			return noop("setcode-skip")
 		}
@@ -250,12 +267,16 @@ func (m *Mutator) Gen(st *state.StateDB) *Op {
 			}}
 	case 5:
 		// SSTORE runs in the context of a contract or of an account under construction
-		a := pickContractish(c)
+		a := m.pickContractish(c)
 		if st.GetNonce(a) == 0 && st.GetCodeSize(a) == 0 {
 			return noop("setstate-skip")
 		}
-		k := common.BigToHash(big.NewInt(int64(c.Intn("slot", nSlots))))
-		v := common.BigToHash(big.NewInt(int64(c.Intn("val", 4))))
+		nsl, nv := nSlots, 4
+		if m.HotSlots > 0 {
+			nsl, nv = m.HotSlots, 3 // few slots, few values: "written back to an earlier value" becomes common
+		}
+		k := common.BigToHash(big.NewInt(int64(c.Intn("slot", nsl))))
+		v := common.BigToHash(big.NewInt(int64(c.Intn("val", nv))))
 		return &Op{Name: "setstate", Desc: fmt.Sprintf("SetState %s %s=%s", nm(a), k.Hex()[60:], v.Hex()[60:]), Foot: []string{acctKey(a)},
 			Apply: func(st *state.StateDB) string {
 				if st.GetNonce(a) == 0 && st.GetCodeSize(a) == 0 {
@@ -265,12 +286,12 @@ func (m *Mutator) Gen(st *state.StateDB) *Op {
 				return ""
 			}}
 	case 6:
-		a := pickContractish(c)
+		a := m.pickContractish(c)
 		return &Op{Name: "suicide", Desc: fmt.Sprintf("Suicide %s", nm(a)), Foot: []string{acctKey(a)},
 			Apply: func(st *state.StateDB) string { return fmt.Sprint(st.Suicide(a)) }}
 	case 7:
 		// EVM create (evm.go:338-347): refused on collision, else CreateAccount + SetNonce(1)
-		a := pickContractish(c)
+		a := m.pickContractish(c)
 		collides := func(st *state.StateDB) bool {
 			ch := st.GetCodeHash(a)
 			return st.GetNonce(a) != 0 || (ch != (common.Hash{}) && ch != emptyCodeHash)
